@@ -399,6 +399,7 @@ class SimDevice(object):
         self.nframes = 0
         self.refuse_open = lambda dest: False
         self.held_streams = []
+        self.every_stream = []       # all streams of all sessions of this device object
         self.hold_next_open = False
         self.budget = None           # number of packets the device may still send before it falls silent (C11)
         self.syms_of = None          # callable(payload) -> list of symbol codes (model-scale scenarios)
@@ -471,6 +472,7 @@ class SimDevice(object):
             st.op = getattr(self, 'cur_op', None)
             self.streams[lid] = st
             self.all_streams.append(st)
+            self.every_stream.append(st)
             if self.held_streams and not self.hold_next_open:
                 self.hold = set()           # the slow service finally answers: its late packets precede the new stream's
                 self.held_streams = []
